@@ -32,10 +32,30 @@ Runtime side (this file), on datasets on which the whole workflow succeeds:
     fault-free result, and the step is run again as in (b).  The phase each
     kill hit (journal write / database page write, how many pages had reached
     the file, torn page) is measured from the files left behind, not assumed.
+    After EVERY kill (both kinds) the harness itself opens only a COPY of the
+    dataset file and its -journal (previous content or complete result, integrity
+    check); on the original the next thing that touches the file is the spowtd
+    command line: the step again, or first another command of the workflow (a
+    later step that fails for lack of its inputs = a reader, an earlier step
+    that fails on its key, an independent step that succeeds), then the step
+    again and the rest of the workflow.  A command that clears away the hot
+    journal, or does not replay it, shows here and only here.
+(b'') failures caused by the arguments: every step x every real-valued argument x
+    {0, -0.0, nan, inf, -inf, negative, denormal, huge, not a number, empty}, and
+    for rise/recession reference levels off the grid / far outside the curve,
+    on the dataset before the step, after the step (and, sampled, in every other
+    state of the workflow including those that lack an earlier step).  Whatever
+    fails (exception or non-zero status) must leave the dump unchanged, the
+    step must run afterwards and give the fault-free result, the completed
+    workflow must equal the canonical one; what the caller saw (failure /
+    success) must agree with how the trace shows the `with` block was left
+    (Model.Txn ExitExn discards, ExitOk publishes); the model's outcome and SQL
+    trace are compared as in (b).
 (c) histories: all orders of {classify, set-zeta-grid, set-curvature} and of
     {rise, recession}, with failed attempts (injected faults of every kind, and
     natural failures such as re-running a completed step or running rise before
-    the grid exists) interleaved; every final dump equals the canonical one.
+    the grid exists, mistyped arguments of any step) interleaved; every final
+    dump equals the canonical one.
 """
 import concurrent.futures as cf
 import itertools
@@ -334,30 +354,46 @@ def kill_job(w, step, pre_file, k, spill):
     return db, p.returncode, hot, file_changed, p.stdout.decode('utf8', 'replace')[-400:]
 
 
-def check_kills(w, jobs, pres, posts, events, out, case, coq):
-    """jobs: list of (step, pre_file, k, spill, point)."""
+def check_kills(w, jobs, dumps, events, out, case, coq, arng=None):
+    """jobs: list of (step, pre_file, k, spill, point[, other]).  other: the command that touches
+    the file first after the kill ('' = the step itself; absent: drawn from arng)."""
     with cf.ThreadPoolExecutor(max_workers=12) as ex:
-        futs = [ex.submit(kill_job, w, step, pre_file, k, spill) for step, pre_file, k, spill, _ in jobs]
+        futs = [ex.submit(kill_job, w, j[0], j[1], j[2], j[3]) for j in jobs]
         results = [f.result() for f in futs]
-    for (step, pre_file, k, spill, point), (db, rc, hot, changed, tail) in zip(jobs, results):
-        c = dict(case, level='kill', step=step, k=k, spill=spill)
+    for job, (db, rc, hot, changed, tail) in zip(jobs, results):
+        step, pre_file, k, spill, point = job[:5]
+        other = (job[5] or None) if len(job) > 5 else pick_other(arng, step) if arng is not None else None
+        i = STEPS.index(step)
+        pre, post = dumps[i], dumps[i + 1]
+        c = dict(case, level='kill', step=step, k=k, spill=spill, other=other or '')
         out.evaluations += 1
         if rc != -9:
             out.violation('corr', 'kill run of `%s` at point %d ended with status %s instead of SIGKILL: %s'
                           % (step, k, rc, tail), case=c)
+            drop_files(db)
             continue
-        got = D.dump(db)   # opening the file replays a hot journal
-        oc = classify_dump(got, pres[step], posts[step])
+        where = 'SIGKILL at point %d (%s %s) of `%s`%s' % (k, point[0], point[1], step,
+                                                          ' (spilling cache)' if spill else '')
+        # (a) judged on a copy of (file, journal): opening the COPY replays its journal
+        cp = side_copy(w, db)
+        problem, got = open_checked(cp)
+        drop_files(cp)
+        if problem is not None:
+            out.count('kill:%s:damaged' % ('spill' if spill else 'cache'))
+            out.violation('oracle', 'after %s the dataset file (with the journal left beside it) is damaged: %s'
+                          % (where, problem), case=c)
+            drop_files(db)
+            continue
+        oc = classify_dump(got, pre, post)
         out.count('kill:%s%s:%s' % ('spill' if spill else 'cache', ':hot-journal' if hot else '', oc))
         if hot and changed and oc == 'OPre':
             out.nontriv(('kill-recovered', w.tag, step, k))
         elif oc == 'OPre':
             out.nontriv(('kill', w.tag, step, k, spill))
         if oc == 'OMixed':
-            out.violation('oracle', 'after SIGKILL at point %d (%s %s) of `%s`%s the dataset is neither its previous '
+            out.violation('oracle', 'after %s the dataset is neither its previous '
                           'content nor the complete result: differs from before in %s, from the result in %s'
-                          % (k, point[0], point[1], step, ' (spilling cache)' if spill else '',
-                             diff_tables(got, pres[step]), diff_tables(got, posts[step])), case=c)
+                          % (where, diff_tables(got, pre), diff_tables(got, post)), case=c)
         # model: the events of the fault-free run up to the point, then nothing
         att = events_before_point(events[step], k)
         if att is not None and coq_wanted(coq, step, events[step][0], out):
@@ -370,16 +406,19 @@ def check_kills(w, jobs, pres, posts, events, out, case, coq):
             if lit is not None:
                 coq['txn'].append((lit, c, 'step=%s kill at point %d (%s) attempt=%s outcome=%s'
                                    % (step, k, point[0], summarize(att), oc)))
-        tr2, exc2 = T.run_cli(w.argv(step, db))
-        again = D.dump(db)
-        if again != posts[step] or (oc == 'OPre' and exc2 is not None):
-            out.violation('oracle', 'after SIGKILL at point %d of `%s` (outcome %s) running the step again %s; '
-                          'tables differing from the fault-free result: %s'
-                          % (k, step, oc, 'raised %s: %s' % (type(exc2).__name__, exc2) if exc2 else 'succeeded',
-                             diff_tables(again, posts[step])), case=c)
-        for f in (db, db + '-journal'):
-            if os.path.exists(f):
-                os.remove(f)
+        # (b) on the original the next thing that touches the file is the spowtd command line
+        if oc != 'OMixed':
+            problems, recovered = recover_by_cli(w, db, step, oc, dumps, other, out)
+            if problems:
+                out.violation('oracle', 'after %s (outcome %s on a copy of the files left behind: dataset file %s, '
+                              'journal %s), with the spowtd command line as the next thing to touch the file%s: %s'
+                              % (where, oc, 'changed' if changed else 'unchanged', 'present' if hot else 'absent/empty',
+                                 ' (first `%s`, then the step again)' % other if other else '', '; '.join(problems)),
+                              case=c)
+            if recovered and changed:
+                out.count('kill:hot-journal-recovered-by-cli')
+                out.nontriv(('kill-cli-recovered', w.tag, step, k, other or ''))
+        drop_files(db)
 
 
 def events_before_point(ev_points, k):
@@ -432,7 +471,8 @@ def pick(points, limit, rng):
     return sorted(keep)
 
 
-def check_faults(w, states, dumps, traces, out, case, coq, rng, limit=None, kills=8, kill_all=False):
+def check_faults(w, states, dumps, traces, out, case, coq, rng, limit=None, kills=8, kill_all=False,
+                 arng=None):
     pres, posts, events = {}, {}, {}
     kill_jobs = []
     for i, step in enumerate(STEPS):
@@ -457,8 +497,323 @@ def check_faults(w, states, dumps, traces, out, case, coq, rng, limit=None, kill
             while len(chosen) < min(len(cand), max(3, kills // len(STEPS) + 1)):
                 chosen.add(rng.choice(cand))
             kk = [(k, rng.random() < 0.6) for k in sorted(chosen)]
+            if arng is not None:
+                # one more kill in the middle of the body with a spilling cache: pages of the dataset
+                # file are overwritten and only the journal protects them (own stream)
+                body = [k for k in cand if tr.points[k][0] in ('exec', 'row') and k not in chosen and k > 0]
+                if body:
+                    kk.append((arng.choice(body[len(body) // 3:]), True))
         kill_jobs += [(step, states[i], k, s, tr.points[k]) for k, s in kk]
-    check_kills(w, kill_jobs, pres, posts, events, out, case, coq)
+    check_kills(w, kill_jobs, dumps, events, out, case, coq, arng=arng)
+
+
+# ------------------------------------------------------------------ after a kill: who touches the file next
+
+def side_copy(w, db):
+    """(a) The dataset file AND its rollback journal, copied aside (the killed process is
+    gone, nothing has the files open).  The copy is what the harness opens, so that on the
+    original the next thing to touch the file is the spowtd command line."""
+    d = os.path.join(w.dir, 'side')
+    os.makedirs(d, exist_ok=True)
+    cp = os.path.join(d, os.path.basename(db))
+    shutil.copyfile(db, cp)
+    if os.path.exists(db + '-journal'):
+        shutil.copyfile(db + '-journal', cp + '-journal')
+    elif os.path.exists(cp + '-journal'):
+        os.remove(cp + '-journal')
+    return cp
+
+
+def drop_files(db):
+    for f in (db, db + '-journal'):
+        if os.path.exists(f):
+            os.remove(f)
+
+
+def journal_size(db):
+    return os.path.getsize(db + '-journal') if os.path.exists(db + '-journal') else -1
+
+
+def pick_other(rng, step):
+    """What runs on the file right after the kill: the step again (None), or first another
+    command of the workflow (it may fail for lack of its inputs: then it only read the
+    file; or succeed: then it is an independent step done early)."""
+    if rng.random() < 0.55:
+        return None
+    return rng.choice([s for s in STEPS if s != step])
+
+
+def recover_by_cli(w, db, step, oc, dumps, other, out):
+    """(b) The ORIGINAL file, exactly as the killed process left it (hot journal included), is
+    next touched by the spowtd command line: `other` first (if any), then the step again,
+    then (if another command ran, or always for a complete result) the rest of the workflow.
+    Returns (list of problems, recovered) - recovered: a non-empty journal file was there and
+    the first command left a sound dataset without it."""
+    i = STEPS.index(step)
+    pre, post = dumps[i], dumps[i + 1]
+    had_journal = journal_size(db) > 0
+    done = set(STEPS[:i]) | ({step} if oc == 'OPost' else set())
+    problems = []
+    first = [True]
+
+    def after(label, tr, exc):
+        """integrity and journal state once a command has touched the file"""
+        problem, got = open_checked(db)
+        rec = first[0] and had_journal and problem is None and journal_size(db) <= 0
+        first[0] = False
+        if problem is not None:
+            problems.append('after %s (%s) the dataset file is damaged: %s'
+                            % (label, 'raised %s: %s' % (type(exc).__name__, str(exc)[:100]) if exc is not None
+                               else 'status %s' % tr.rc, problem))
+        return got, rec
+
+    recovered = False
+    other_ran = False
+    if other is not None:
+        tr0, exc0 = T.run_cli(w.argv(other, db))
+        got0, recovered = after('the next command `%s`' % other, tr0, exc0)
+        if got0 is None:
+            return problems, False
+        if failed_cmd(tr0, exc0):
+            if got0 != (post if oc == 'OPost' else pre):
+                problems.append('after the next command `%s` (which failed: %s) the dataset is neither the previous '
+                                'content nor the complete result of `%s`: differs from before in %s, from the result '
+                                'in %s' % (other, type(exc0).__name__ if exc0 is not None else 'status %s' % tr0.rc,
+                                           step, diff_tables(got0, pre), diff_tables(got0, post)))
+        else:
+            other_ran = True
+            done.add(other)
+    tr2, exc2 = T.run_cli(w.argv(step, db))
+    again, rec2 = after('running `%s` again' % step, tr2, exc2)
+    recovered = recovered or rec2
+    if again is None:
+        return problems, False
+    if oc == 'OPre' and failed_cmd(tr2, exc2):
+        problems.append('the step cannot be run again although the dataset held its previous content: `%s` %s'
+                        % (step, 'raised %s: %s' % (type(exc2).__name__, exc2) if exc2 is not None
+                           else 'returned status %s' % tr2.rc))
+    elif not other_ran and again != post:
+        problems.append('running `%s` again %s; tables differing from the fault-free result: %s'
+                        % (step, 'raised %s: %s' % (type(exc2).__name__, exc2) if exc2 is not None else 'succeeded',
+                           diff_tables(again, post)))
+    if not failed_cmd(tr2, exc2) or oc == 'OPost':
+        done.add(step)
+    if other is not None and not problems:
+        bad, final = finish_pipeline(w, db, done)
+        out.count('kill:then-cli:continued-to-the-end')
+        if bad is not None:
+            problems.append('the workflow cannot be completed afterwards: %s' % bad)
+        elif final != dumps[len(STEPS)]:
+            problems.append('the completed workflow differs from the one in which nothing was killed: tables %s'
+                            % diff_tables(final, dumps[len(STEPS)]))
+    out.count('kill:then-cli:%s' % ('rerun' if other is None else 'other-first:%s'
+                                    % ('ran' if other_ran else 'failed')))
+    return problems, recovered and not problems
+
+
+# ------------------------------------------------------------------ (b'') failures caused by the arguments
+
+# Values a user can mistype for a real-valued argument.  Which of them the command
+# refuses is not assumed: a command that accepts one (and completes) is no failed
+# attempt and is only counted.
+BAD_REALS = ['0', '-0.0', 'nan', 'inf', '-inf', '-1', '1e-320', '5e-324', '1e308', '-1e-320', 'abc', '']
+REAL_ARGS = {'classify': ['-s', '-j'], 'set-zeta-grid': ['-d'], 'set-curvature': [None],
+             'rise': ['-r'], 'recession': ['-r']}
+
+
+def with_arg(argv, flag, value):
+    """argv with the value of `flag` replaced (flag None: the positional after DB).
+    `flag=value` so that negative values are not read as options."""
+    argv = [str(a) for a in argv]
+    if flag is None:
+        return argv[:2] + ['--', value] if value.startswith('-') else argv[:2] + [value]
+    out, i = [], 0
+    while i < len(argv):
+        if argv[i] == flag:
+            i += 2
+            continue
+        if argv[i].startswith(flag + '='):
+            i += 1
+            continue
+        out.append(argv[i])
+        i += 1
+    return out + ['%s=%s' % (flag, value)]
+
+
+def natural_variants(w, step):
+    """(flag, value) pairs that make `step` fail (or not) through its arguments."""
+    out = [(f, v) for f in REAL_ARGS[step] for v in BAD_REALS]
+    if step in CURVES:
+        grid = 1.0 if 'sample' in w.rec else float(w.rec['grid_mm'])
+        # reference level off the grid by various amounts, on the grid but far outside the
+        # curve, beyond what an integer index can hold
+        out += [('-r', repr(grid * m)) for m in (0.37, 2.5, 1 + 2.0 ** -20, -3.75, 1e9, -1e9, 4e15, 1e300)]
+    return out
+
+
+def failed_cmd(tr, exc):
+    return exc is not None or tr.rc not in (None, 0)
+
+
+def exit_kinds(tr):
+    return [e[0] for e in tr.events if e[0] in ('exit_ok', 'exit_exn')]
+
+
+def exit_kind_problem(tr, exc):
+    """What the caller of the command saw (exception / non-zero status / success) against how
+    the trace shows the `with connection:` block was left: a normal exit publishes, an
+    exceptional one discards (Model.Txn ExitOk / ExitExn)."""
+    kinds = exit_kinds(tr)
+    if failed_cmd(tr, exc) and 'exit_ok' in kinds and not tr.fired:
+        return ('the command reported failure (%s) but left its `with connection:` block NORMALLY, which commits '
+                'whatever had been written' % ('status %s' % tr.rc if exc is None else type(exc).__name__))
+    if not failed_cmd(tr, exc) and 'exit_exn' in kinds:
+        return ('the command reported success but its `with connection:` block was left by an exception (its '
+                'writes were discarded)')
+    return None
+
+
+def natural_states(w, states, dumps, out):
+    """Datasets on which steps are attempted: the canonical S0..S5 and the ones that lack an
+    earlier step although later ones ran (grid without classification, classification
+    without grid + curvature)."""
+    named = {str(j): (states[j], dumps[j], set(STEPS[:j])) for j in range(len(STEPS) + 1)}
+    for name, steps in (('G', ['set-zeta-grid']), ('KG', ['set-curvature', 'set-zeta-grid']),
+                        ('CK', ['classify', 'set-curvature'])):
+        p = os.path.join(w.dir, 'N%s.sqlite3' % name)
+        shutil.copyfile(states[0], p)
+        ok = True
+        for s in steps:
+            tr, exc = T.run_cli(w.argv(s, p), fast=True)
+            ok = ok and not failed_cmd(tr, exc)
+        if ok:
+            named[name] = (p, D.dump(p), set(steps))
+        else:
+            out.count('natural:state-%s-unavailable' % name)
+    return named
+
+
+def finish_pipeline(w, db, done):
+    """Run every step not yet done, canonical order.  Returns (first failure or None, dump)."""
+    for s in STEPS:
+        if s in done:
+            continue
+        tr, exc = T.run_cli(w.argv(s, db), fast=True)
+        if failed_cmd(tr, exc):
+            return '`%s` %s' % (s, 'raised %s: %s' % (type(exc).__name__, exc) if exc is not None
+                                else 'returned status %s' % tr.rc), D.dump(db)
+        done = done | {s}
+    return None, D.dump(db)
+
+
+def one_natural(w, named, dumps, traces, step, state, flag, value, out, case, coq, to_end):
+    src, before, done = named[state]
+    db = w.fresh(src)
+    argv = with_arg(w.argv(step, db), flag, value) if flag != 'valid' else w.argv(step, db)
+    tr, exc = T.run_cli(argv, fast=True)
+    got = D.dump(db)
+    out.evaluations += 1
+    c = dict(case, level='natural', step=step, state=state, variant=[flag, value])
+    shown = ' '.join(['spowtd'] + [a if a != db else 'DB' for a in argv])
+    if not failed_cmd(tr, exc):
+        # accepted: another (valid) step, not a failed attempt.  Only the exit kind is judged.
+        out.count('natural:accepted:%s' % step)
+        pr = exit_kind_problem(tr, exc)
+        if pr is not None:
+            out.violation('oracle', '`%s` on the dataset %s: %s' % (shown, state_name(state), pr), case=c)
+        os.remove(db)
+        return
+    how = 'SystemExit' if isinstance(exc, SystemExit) else type(exc).__name__ if exc is not None else 'status'
+    out.count('natural:failed:%s:%s:%s' % (step, 'done' if step in done else 'todo', how))
+    i = STEPS.index(step)
+    oc = 'OPre' if got == before else 'OPost' if (step not in done and got == dumps[i + 1] and state == str(i)) \
+        else 'OMixed'
+    pr = exit_kind_problem(tr, exc)
+    wrote = any(e[0] == 'dml' for e in tr.events)
+    problems = []
+    if oc != 'OPre':
+        problems.append('it CHANGED the dataset: tables %s differ from the content before%s%s'
+                        % (diff_tables(got, before), '' if oc == 'OMixed' else
+                           ' (it is the complete result of the step with its proper arguments)', '; ' + pr if pr else ''))
+    elif wrote:
+        out.nontriv(('natural', w.tag, step, state, flag, value))   # work had to be undone
+    if pr is not None and oc == 'OPre':
+        out.violation('corr', '`%s` on the dataset %s: %s; events %s, sql %s'
+                      % (shown, state_name(state), pr, summarize(tr.events), summarize_sql(tr.sql)), case=c)
+    try:
+        lit = '(%s, %s, %s, %s)' % (cevs(traces[step].events), cevs(tr.events), '(Some %s)' % csql(tr.sql), oc)
+        if len(tr.events) <= LONG and lit not in coq.setdefault('seen', set()):
+            coq['seen'].add(lit)
+            coq['txn'].append((lit, c, 'natural failure `%s` on %s: attempt=%s sql=%s outcome=%s failure=%s'
+                               % (shown, state_name(state), summarize(tr.events), summarize_sql(tr.sql), oc, how)))
+    except ValueError:
+        out.count('natural:event-outside-model')
+    # the step can (still) be run, and the end of the workflow does not know about the attempt
+    if step not in done:
+        tr2, exc2 = T.run_cli(w.argv(step, db), fast=True)
+        again = D.dump(db)
+        ref = named.get(str(i + 1)) if state == str(i) else None
+        if failed_cmd(tr2, exc2) and state == str(i):
+            problems.append('afterwards the step `%s` cannot be run: %s'
+                            % (step, 'raised %s: %s' % (type(exc2).__name__, exc2) if exc2 is not None
+                               else 'status %s' % tr2.rc))
+        elif ref is not None and again != ref[1]:
+            problems.append('running `%s` afterwards gives a result different from the one without the attempt: '
+                            'tables %s' % (step, diff_tables(again, ref[1])))
+        if not failed_cmd(tr2, exc2):
+            done = done | {step}
+    if to_end:
+        bad, final = finish_pipeline(w, db, done)
+        out.count('natural:continued-to-the-end')
+        if bad is not None:
+            problems.append('the workflow cannot be completed afterwards: %s' % bad)
+        elif final != dumps[len(STEPS)]:
+            problems.append('the completed workflow differs from the one without the attempt: tables %s'
+                            % diff_tables(final, dumps[len(STEPS)]))
+    if problems:
+        n = coq.setdefault('natural-reported', {})
+        n[(w.tag, step)] = n.get((w.tag, step), 0) + 1
+        out.count('natural-violation:%s' % step)
+        if n[(w.tag, step)] <= CK_REPORT_CAP:
+            out.violation('oracle', 'the failed attempt `%s` (%s%s) on the dataset %s: %s%s'
+                          % (shown, type(exc).__name__ if exc is not None else 'status %s' % tr.rc,
+                             ': %s' % str(exc)[:80] if exc is not None and not isinstance(exc, SystemExit) else '',
+                             state_name(state), '; '.join(problems),
+                             ' [further violations in this step are only counted: natural-violation:* in the '
+                             'evidence]' if n[(w.tag, step)] == CK_REPORT_CAP else ''), case=c)
+    os.remove(db)
+
+
+def state_name(state):
+    if state.isdigit():
+        j = int(state)
+        return 'after %s' % (STEPS[j - 1] if j else 'load') + (' (before %s)' % STEPS[j] if j < len(STEPS) else '')
+    return {'G': 'with a level grid but no classification', 'KG': 'with curvature and level grid but no '
+            'classification', 'CK': 'with classification and curvature but no level grid'}[state]
+
+
+def check_natural(w, states, dumps, traces, out, case, coq, rng, share=1.0, only=None):
+    """Attempts that fail by themselves because of their arguments or of what the dataset
+    lacks, before and after the step has succeeded.  share: fraction of the (step, state,
+    variant) triples away from the step's own pre-state that is run (the pre-state gets all)."""
+    named = natural_states(w, states, dumps, out)
+    if only is not None:
+        for step, state, flag, value in only:
+            if state in named:
+                one_natural(w, named, dumps, traces, step, state, flag, value, out, case, coq, True)
+        return
+    for i, step in enumerate(STEPS):
+        variants = natural_variants(w, step)
+        for state in sorted(named, key=lambda st: (st != str(i), st)):
+            own = state == str(i)
+            for flag, value in variants + [('valid', '')]:
+                if flag == 'valid' and own:
+                    continue   # the fault-free step itself
+                if not own and rng.random() >= share:
+                    continue
+                one_natural(w, named, dumps, traces, step, state, flag, value, out, case, coq,
+                            to_end=own or rng.random() < 0.25)
+
 
 
 # ------------------------------------------------------------------ (b') killed inside the commit
@@ -555,28 +910,30 @@ def open_checked(db):
         return 'the file cannot be read: %s: %s' % (type(e).__name__, e), None
 
 
-def check_commit_kills(w, states, dumps, traces, out, case, coq, rng, per_step=2, only=None):
-    """only: [(step, limit)] (replay)."""
+def check_commit_kills(w, states, dumps, traces, out, case, coq, rng, per_step=2, only=None, arng=None):
+    """only: [(step, limit, other)] (replay).  arng: stream that decides which command touches the
+    file first after each kill (None: always the step itself)."""
     jobs, info = [], {}
     for i, step in enumerate(STEPS):
         ps, dirty, limits = commit_kill_limits(states[i], states[i + 1], rng, per_step)
         info[step] = (i, ps, dirty)
         if only is not None:
-            limits = [l for s, l in only if s == step]
-        jobs += [(step, l) for l in limits]
+            jobs += [(s_, l, o or None) for s_, l, o in only if s_ == step]
+        else:
+            jobs += [(step, l, pick_other(arng, step) if arng is not None else None) for l in limits]
         out.count('kill-in-commit-dirty-pages:%s' % step, len(dirty))
         grown = (os.path.getsize(states[i + 1]) - os.path.getsize(states[i])) // ps
         if grown:
             out.count('kill-in-commit-new-pages:%s' % step, grown)
     with cf.ThreadPoolExecutor(max_workers=12) as ex:
         futs = [ex.submit(commit_kill_job, w, step, states[info[step][0]], states[info[step][0] + 1], limit)
-                for step, limit in jobs]
+                for step, limit, _ in jobs]
         results = [f.result() for f in futs]
     reported = {}
-    for (step, limit), (db, rc, jsize, written, torn, npages, tail) in zip(jobs, results):
+    for (step, limit, other), (db, rc, jsize, written, torn, npages, tail) in zip(jobs, results):
         i, ps, dirty = info[step]
         pre, post = dumps[i], dumps[i + 1]
-        c = dict(case, level='commit-kill', step=step, limit=limit)
+        c = dict(case, level='commit-kill', step=step, limit=limit, other=other or '')
         out.evaluations += 1
         if rc == 0:
             phase = 'not-killed'
@@ -602,7 +959,11 @@ def check_commit_kills(w, states, dumps, traces, out, case, coq, rng, per_step=2
                 out.violation('oracle', msg + (' [further violations of this kind in this step are only counted: '
                                                'kill-in-commit-violation:* in the evidence]'
                                                if n == CK_REPORT_CAP else ''), case=c)
-        problem, got = open_checked(db)
+        # (a) judged on a copy of (file, journal): opening the COPY replays its journal
+        cp = side_copy(w, db)
+        problem, got = open_checked(cp)
+        journal_gone = journal_size(cp) <= 0
+        drop_files(cp)
         if problem is not None:
             out.count('kill-in-commit:%s:damaged' % phase)
             report('damaged', 'killed while writing: %s. Afterwards the dataset file is DAMAGED, neither the previous '
@@ -612,7 +973,6 @@ def check_commit_kills(w, states, dumps, traces, out, case, coq, rng, per_step=2
             out.count('kill-in-commit:%s:%s' % (phase, oc))
             if torn and rc != 0:
                 out.count('kill-in-commit:torn-page:%s' % oc)
-            journal_gone = not os.path.exists(db + '-journal') or os.path.getsize(db + '-journal') == 0
             if phase == 'db-page-write' and oc == 'OPre':
                 if journal_gone:
                     # a hot journal rolled the partly written commit back
@@ -638,15 +998,18 @@ def check_commit_kills(w, states, dumps, traces, out, case, coq, rng, per_step=2
                                        % (step, limit, summarize(att), oc)))
                 except ValueError:
                     pass  # event outside the model: reported by the shape stage
-            tr2, exc2 = T.run_cli(w.argv(step, db))
-            problem2, again = open_checked(db)
-            if problem2 is not None or again != post or (oc == 'OPre' and exc2 is not None):
-                report('rerun', 'killed while writing: %s (outcome %s). Running the step again %s; %s'
-                       % (where, oc, 'raised %s: %s' % (type(exc2).__name__, exc2) if exc2 else 'succeeded',
-                          problem2 or 'tables differing from the fault-free result: %s' % diff_tables(again, post)))
-        for f in (db, db + '-journal'):
-            if os.path.exists(f):
-                os.remove(f)
+            # (b) on the original the next thing that touches the file is the spowtd command line
+            if oc != 'OMixed':
+                problems, recovered = recover_by_cli(w, db, step, oc, dumps, other, out)
+                if problems:
+                    report('rerun', 'killed while writing: %s (outcome %s on a copy of the files left behind). With the '
+                           'spowtd command line as the next thing to touch the file%s: %s'
+                           % (where, oc, ' (first `%s`, then the step again)' % other if other else '',
+                              '; '.join(problems)))
+                if recovered and written:
+                    out.count('kill-in-commit:hot-journal-recovered-by-cli')
+                    out.nontriv(('kill-in-commit-cli-recovered', w.tag, step, tuple(written), tuple(torn), other or ''))
+        drop_files(db)
 
 
 def fine_variant(w, out):
@@ -713,7 +1076,37 @@ def failing_attempt(w, db, rng, done, traces, out, case, coq):
     return 'failed'
 
 
-def check_orders(w, states, dumps, traces, out, case, coq, rng, nfail=2):
+def argument_attempt(w, db, nrng, out, case):
+    """One attempt with a mistyped argument (any step, any state of the history).  If the
+    command fails it must have left no trace; if it is accepted the history is no longer the
+    one under test (returns 'ran')."""
+    step = nrng.choice(STEPS)
+    flag, value = nrng.choice(natural_variants(w, step))
+    copy = db + '.before'
+    shutil.copyfile(db, copy)
+    before = D.dump(db)
+    argv = with_arg(w.argv(step, db), flag, value)
+    tr, exc = T.run_cli(argv, fast=True)
+    out.evaluations += 1
+    if not failed_cmd(tr, exc):
+        out.count('history-attempt:argument:accepted')
+        shutil.copyfile(copy, db)   # not a failed attempt: take it out of the history
+        os.remove(copy)
+        return
+    os.remove(copy)
+    out.count('history-attempt:argument:%s' % ('SystemExit' if isinstance(exc, SystemExit) else
+                                                type(exc).__name__ if exc is not None else 'status'))
+    after = D.dump(db)
+    pr = exit_kind_problem(tr, exc)
+    if after != before:
+        out.violation('oracle', 'a failed attempt (`%s`, %s) in the middle of a history changed the dataset: tables %s%s'
+                      % (' '.join(['spowtd'] + [a if a != db else 'DB' for a in argv]),
+                         type(exc).__name__ if exc is not None else 'status %s' % tr.rc,
+                         diff_tables(after, before), '; ' + pr if pr else ''),
+                      case=dict(case, attempt=[step, flag, value]))
+
+
+def check_orders(w, states, dumps, traces, out, case, coq, rng, nfail=2, nrng=None):
     for group, start, want in ((SETUP, 0, 3), (CURVES, 3, 5)):
         finals = {}
         for order in itertools.permutations(group):
@@ -722,6 +1115,8 @@ def check_orders(w, states, dumps, traces, out, case, coq, rng, nfail=2):
             c = dict(case, level='order', order=list(order))
             ok = True
             for step in order:
+                for _ in range(nrng.randrange(0, 3) if nrng is not None else 0):
+                    argument_attempt(w, db, nrng, out, c)
                 for _ in range(rng.randrange(0, nfail + 1)):
                     r = failing_attempt(w, db, rng, done, traces, out, c, coq)
                     if r == 'ran':
@@ -739,6 +1134,8 @@ def check_orders(w, states, dumps, traces, out, case, coq, rng, nfail=2):
                 continue
             for _ in range(rng.randrange(0, nfail + 1)):
                 failing_attempt(w, db, rng, done, traces, out, c, coq)
+            for _ in range(nrng.randrange(0, 2) if nrng is not None else 0):
+                argument_attempt(w, db, nrng, out, c)
             got = D.dump(db)
             out.evaluations += 1
             out.count('order:' + '>'.join(order))
@@ -770,7 +1167,7 @@ def run_coq(coq, out):
 
 
 def check_dataset(rec, tag, out, rng, tier, coq, limit=None, kills=8, kill_all=False, orders=True,
-                  ckills=2, ckills_fine=None, fine=False, seed=0):
+                  ckills=2, ckills_fine=None, fine=False, seed=0, natural=0.15):
     """ckills / ckills_fine: kills inside the commit per step on the dataset as it is / on its
     fine-grid variant (None: every limit; 0: none)."""
     w = Work(rec, tag)
@@ -783,18 +1180,24 @@ def check_dataset(rec, tag, out, rng, tier, coq, limit=None, kills=8, kill_all=F
     out.count('dataset')
     out.count('fault-points', sum(len(traces[s].points) for s in STEPS))
     check_shape(w, traces, out, case, coq)
-    check_faults(w, states, dumps, traces, out, case, coq, rng, limit=limit, kills=kills, kill_all=kill_all)
+    arng = C.rng_for(seed, PROP, 'after-kill', tag)   # which command touches the file first after a kill
+    check_faults(w, states, dumps, traces, out, case, coq, rng, limit=limit, kills=kills, kill_all=kill_all,
+                 arng=arng)
+    if natural:
+        check_natural(w, states, dumps, traces, out, case, coq, C.rng_for(seed, PROP, 'natural', tag), share=natural)
     crng = C.rng_for(seed, PROP, 'commit-kill', tag)  # own stream: the older stages keep their draws
     if ckills != 0:
-        check_commit_kills(w, states, dumps, traces, out, case, coq, crng, per_step=ckills)
+        check_commit_kills(w, states, dumps, traces, out, case, coq, crng, per_step=ckills, arng=arng)
     if fine:
         fv = fine_variant(w, out)
         if fv is not None:
             fw, fstates, fdumps, ftraces = fv
-            check_commit_kills(fw, fstates, fdumps, ftraces, out, dict(rec=fw.rec), coq, crng, per_step=ckills_fine)
+            check_commit_kills(fw, fstates, fdumps, ftraces, out, dict(rec=fw.rec), coq, crng, per_step=ckills_fine,
+                               arng=arng)
             shutil.rmtree(fw.dir, ignore_errors=True)
     if orders:
-        check_orders(w, states, dumps, traces, out, case, coq, rng)
+        check_orders(w, states, dumps, traces, out, case, coq, rng,
+                     nrng=C.rng_for(seed, PROP, 'natural-history', tag) if natural else None)
     shutil.rmtree(w.dir, ignore_errors=True)
 
 
@@ -814,11 +1217,11 @@ def run(ctx, out):
         # file grow) and 2 per step on ds1 as it is; thorough: every limit on both forms of ds0 and ds1,
         # 2 per step on the others (even ones on the fine grid)
         check_dataset(rec, 'ds%d' % i, out, rng, tier, coq, kills=12 if tier == 'quick' else 20, kill_all=full,
-                      seed=seed, fine=full or i % 2 == 0,
+                      seed=seed, fine=full or i % 2 == 0, natural=1.0 if full else 0.25,
                       ckills=None if full else 0 if i % 2 == 0 else 2, ckills_fine=None if full else 2)
     if tier == 'thorough':
         check_dataset(dict(sample=1), 'sample1', out, rng, tier, coq, limit=10, kills=5, orders=False,
-                      seed=seed, ckills=2)
+                      seed=seed, ckills=2, natural=0)   # (b'') not on the field sample: seconds per command
     run_coq(coq, out)
     out.rule = ('Datasets: synthetic saw-tooth records (storms with fast rises, dry recessions, overlapping in '
                 'level) on which load..recession all succeed%s. Every fault point of every step x {exception, '
@@ -829,12 +1232,23 @@ def run(ctx, out):
                 'generated and on a fine level grid (<= 0.07 mm) of the other, whose commits make the file grow; every '
                 'dirty page, torn page and page boundary for 2 datasets in thorough), followed by PRAGMA '
                 'integrity_check, dump in {before, complete}, re-run; the phase hit is measured from the files left '
-                'behind (histogram kill-in-commit:<phase>:<outcome>); all orders of the '
+                'behind (histogram kill-in-commit:<phase>:<outcome>); after every kill of either kind the harness '
+                'opens only a COPY of (dataset file, -journal), and on the original the next thing to touch the file '
+                'is the spowtd command line (the step again, in ~45%% of the kills first another command of the '
+                'workflow, then the rest of the workflow): kill:then-cli:*, *:hot-journal-recovered-by-cli; '
+                'failures caused by the arguments (every real argument of every step x {0, -0.0, nan, +-inf, '
+                'negative, denormal, huge, non-numeric, empty}, reference levels off the grid / outside the curve) '
+                'before the step, after it and (sampled) in every other state including ones lacking an earlier '
+                'step: natural:failed:<step>:<todo|done>:<exception>, natural:accepted:* = accepted by the command, '
+                'not a failed attempt; all orders of the '
                 'independent steps with failed attempts interleaved. Non-trivial: a fault that actually fired '
                 'with work to undo and left the previous content (distinct by dataset, step, point, kind), a '
                 'kill whose hot journal was replayed (for kills inside the commit: the dataset file had changed, '
                 'a journal file was present, opening the file restored the previous content and removed the '
                 'journal; distinct by dataset, step, set of pages that had reached the file, torn pages), '
+                'a kill after which a non-empty journal and a changed dataset file were left and the spowtd command '
+                'line (not the harness) was the first to open the file and left it sound without the journal, '
+                'an argument-induced failure that had issued at least one write and left the previous content, '
                 'an order whose final dump equals the canonical one.'
                 % (' plus field sample 1 (10 sampled fault points per step)' if tier == 'thorough' else ''))
     out.samples = [dict(level='dataset', record=recs[0])]
@@ -854,17 +1268,35 @@ def replay(case, out):
     rng = C.rng_for(0, PROP, 'replay')
     coq = dict(txn=[], shape=[], tables=[])
     rec = case['rec']
-    if case.get('level') == 'commit-kill':
+    level = case.get('level')
+    if level in ('commit-kill', 'natural') or (level == 'kill' and 'other' in case):
+        # exactly the reported attempt (same fault point / size limit / arguments, same command
+        # touching the file afterwards)
         w = Work(rec, 'replay')
         can = canonical(w, out, case)
         if can is None:
             out.violation('corr', 'replay: the dataset does not carry the whole workflow', case=case)
             return
-        check_commit_kills(w, can[0], can[1], can[2], out, dict(rec=rec), coq, rng,
-                           only=[(case['step'], int(case['limit']))])
+        states, dumps, traces = can
+        if level == 'natural':
+            check_natural(w, states, dumps, traces, out, dict(rec=rec), coq, rng,
+                          only=[(case['step'], case['state'], case['variant'][0], case['variant'][1])])
+        elif level == 'kill':
+            step, k = case['step'], int(case['k'])
+            tr = traces[step]
+            if k >= len(tr.points):
+                out.violation('corr', 'replay: `%s` has no fault point %d' % (step, k), case=case)
+            else:
+                events = {s_: (traces[s_].events, traces[s_].points, index_points(traces[s_])) for s_ in STEPS}
+                check_kills(w, [(step, states[STEPS.index(step)], k, bool(case.get('spill')), tr.points[k],
+                                 case.get('other') or '')], dumps, events, out, dict(rec=rec), coq)
+        else:
+            check_commit_kills(w, states, dumps, traces, out, dict(rec=rec), coq, rng,
+                               only=[(case['step'], int(case['limit']), case.get('other') or '')])
         run_coq(coq, out)
         shutil.rmtree(w.dir, ignore_errors=True)
         return
     check_dataset(rec, 'replay', out, rng, 'quick', coq, limit=10 if 'sample' in rec else None,
-                  kills=12, orders='sample' not in rec, kill_all=(case.get('level') == 'kill' and 'sample' not in rec))
+                  kills=12, orders='sample' not in rec, kill_all=(case.get('level') == 'kill' and 'sample' not in rec),
+                  natural=0 if 'sample' in rec else 0.25)
     run_coq(coq, out)
